@@ -203,7 +203,7 @@ fn compare_with_fresh_once(s: &mut LspSession, model: &BTreeMap<String, String>,
     }
     for open in s.opened.clone() {
         let uri = s.tw.uri(&open);
-        if !expected.contains_key(&uri) {
+        if !expected.contains_key(&s.tw.key(&open)) {
             continue;
         }
         let want = expected_outline(&s.tw, model, root, &open);
